@@ -268,7 +268,7 @@ impl Ctx {
 
     /// Runs `f` (which calls into the crate under test); a panic becomes `Err(message)`.
     pub fn guard<T>(&mut self, f: impl FnOnce() -> T) -> Result<T, String> {
-        catch_unwind(AssertUnwindSafe(f)).map_err(|e| panic_message(&e))
+        in_subject(|| catch_unwind(AssertUnwindSafe(f))).map_err(|e| panic_message(&e))
     }
 
     /// Runs an input supplier that belongs to ANOTHER property (e.g. the D-set generator feeding C07).
@@ -337,6 +337,29 @@ fn scratch_dir(id: &str) -> PathBuf {
 // ---------------------------------------------------------------------------------------
 // worker side
 
+/// Nesting depth of calls into the code under test (set by `in_subject` / `Ctx::guard`).  The watchdog turns a
+/// stall into a verdict (kind "timeout") only while the code under test is running; a stall in the harness's own
+/// enumeration or reference models is a machinery failure (exit 2), never a verdict.
+pub static SUBJECT_DEPTH: std::sync::atomic::AtomicUsize = std::sync::atomic::AtomicUsize::new(0);
+
+/// Runs `f` marked as "the code under test is running" (for crate calls that do not go through `Ctx::guard`).
+pub fn in_subject<T>(f: impl FnOnce() -> T) -> T {
+    struct Leave;
+    impl Drop for Leave {
+        fn drop(&mut self) {
+            SUBJECT_DEPTH.fetch_sub(1, Ordering::SeqCst);
+        }
+    }
+    SUBJECT_DEPTH.fetch_add(1, Ordering::SeqCst);
+    let _l = Leave;
+    f()
+}
+
+/// `catch_unwind` around a call into the code under test, marked for the watchdog
+pub fn catch_subject<T>(f: impl FnOnce() -> T) -> std::thread::Result<T> {
+    in_subject(|| catch_unwind(AssertUnwindSafe(f)))
+}
+
 /// peak resident set of this process in MiB (VmHWM), 0 if /proc is unreadable
 fn peak_rss_mb() -> i64 {
     std::fs::read_to_string("/proc/self/status")
@@ -362,6 +385,12 @@ pub fn worker_main(spec: &Spec, tier: Tier, seed: u64, shard: usize, nshards: us
             (l.0, l.1.clone())
         };
         if shared.seq.load(Ordering::Relaxed) > 0 && t.elapsed() > Duration::from_secs(cap) {
+            if SUBJECT_DEPTH.load(Ordering::SeqCst) == 0 {
+                // the harness itself (enumeration, reference model) is what takes so long: no verdict
+                eprintln!("HARNESS STALL in worker {}: no new case for {} s while the code under test was NOT running", shard, cap);
+                eprintln!("  last announced case: {}", s);
+                std::process::exit(2);
+            }
             let case: Value = serde_json::from_str(&s).unwrap_or(Value::String(s));
             let v = json!({
                 "shard": shard, "evaluations": 0, "nontrivial": 0, "states": 0, "transitions": 0, "traces": 0,
